@@ -9,6 +9,7 @@ import json
 import multiprocessing
 import os
 import re
+import signal
 import subprocess
 import sys
 import time
@@ -50,7 +51,16 @@ def execute_run(mod, seed: int, run_index: int, tier: str, values=None, keep_tap
         "error": None,
     }
     timeout = getattr(mod, "TIMEOUT", 120)
-    faulthandler.dump_traceback_later(timeout, exit=True)
+    faulthandler.dump_traceback_later(timeout, exit=True, file=sys.__stderr__)
+    # safety net against endless loops inside third-party optimisers: CPU-time based, turns a
+    # runaway run into an "inconclusive" verdict (counted in the evidence, never a VIOLATION)
+    cpu_limit = getattr(mod, "CPU_LIMIT", 0)
+    if cpu_limit:
+        def _on_cpu_limit(signum, frame):
+            raise Inconclusive(f"CPU limit of {cpu_limit}s reached")
+
+        signal.signal(signal.SIGVTALRM, _on_cpu_limit)
+        signal.setitimer(signal.ITIMER_VIRTUAL, cpu_limit)
     try:
         mod.run(ctx)
     except StopRun:
@@ -62,6 +72,8 @@ def execute_run(mod, seed: int, run_index: int, tier: str, values=None, keep_tap
         res["status"] = "harness_error"
         res["error"] = traceback.format_exc()[-3000:]
     finally:
+        if cpu_limit:
+            signal.setitimer(signal.ITIMER_VIRTUAL, 0)
         faulthandler.cancel_dump_traceback_later()
         try:
             ctx.cleanup()
@@ -397,9 +409,15 @@ def run_check(prop: str, machines: list[str], tier: str, seed: int, out=sys.stdo
     new_violations = []  # (machine, run record, violation dict)
     known_hits = Counter()
     known_desc = {}
+    other_props = Counter()
     for name, pm in per_machine.items():
         for rec in sorted(pm["violations"], key=lambda r: r["run"]):
             for v in rec["violations"]:
+                if v["property"] != prop:
+                    # oracles of another property ride along in this machine; that property's own
+                    # check (same machine, its own workload mix) is the one that reports them
+                    other_props[v["property"]] += 1
+                    continue
                 e = match_known(v, findings)
                 if e is not None:
                     known_hits[e["id"]] += 1
@@ -516,6 +534,7 @@ def run_check(prop: str, machines: list[str], tier: str, seed: int, out=sys.stdo
                 "digest_mismatches": len(nondeterministic),
             },
             "known_findings_hit": {k: known_hits[k] for k in sorted(known_hits)},
+            "violations_attributed_to_other_properties": dict(other_props),
             "workers": workers,
             "exhaustive": False,
         },
